@@ -286,6 +286,14 @@ theorem gen_persist_error_branch :
     BlugeGen.C03.persistErrBranch = ["if-closed:break OUTER", "park-callbacks", "fire-async-error", "continue OUTER"] ∧
     BlugeGen.C02.errSentOnFailure = true ∧ BlugeGen.C02.cbAfterErrBranch = true ∧ BlugeGen.C02.lastPersistedOnOk = true := by decide
 
+/-- `snapEnd false` / `mergeSegEnd false` / `fault .persister` make the job `failed` (`persist_failure_fails_job`) ALSO on the
+in-memory-merge path: `persistSnapshot` tests the error of `persistSnapshotMaybeMerge` BEFORE (independently of) its "persisted"
+flag; `persistSnapshotMaybeMerge` says "persisted" only together with a nil error, and the error of writing the merged
+equivalent snapshot (`persistSnapshotDirect(equiv)`) is tested and returned as `(false, err)` -/
+theorem gen_maybe_merge_error_not_dropped :
+    BlugeGen.C03.maybeMergeHandling = ["if-err:return err", "if-done:return nil"] ∧
+    BlugeGen.C03.maybeMergeTrueReturns = ["true, nil"] ∧ BlugeGen.C03.maybeMergeEquivErrReturned = true := by decide
+
 /-- `stepAck` / `observe .ack`: on success the parked callbacks are put in front of the grabbed ones, the parked list is
 reset, and all are invoked -/
 theorem gen_parked_first :
